@@ -360,6 +360,12 @@ func (s *grpcServer) Write(srv bytestream.ByteStream_WriteServer) error {
 	var resp bytestream.WriteResponse
 	pr, pw := io.Pipe()
 
+	// Whatever the reason we return, make sure that the receive loop
+	// below can not stay blocked in pw.Write once nobody reads from the
+	// pipe any more (eg when Put gave up on invalid compressed data: the
+	// zstd decoder wrapping pr does not close pr).
+	defer func() { _ = pr.Close() }()
+
 	putResult := make(chan error, 1)
 	recvResult := make(chan error, 1)
 	resourceNameChan := make(chan string, 1)
